@@ -200,6 +200,43 @@ def repr_case(rng, g):
     return c
 
 
+BARE = {"key": None, "index": None, "value": None, "condition": None, "list_condition": None, "map_condition": None, "label": None}
+
+
+def dependent_cast_case(rng, g):
+    """two cast rules, the later one SELECTING by the (string) content an earlier one casts: every rule selects in
+    the document as given, so the later rule finds its nodes whatever the earlier one wrote into the copy"""
+    castable = ["5", "12", "0", "true", "False", "1", "-3"]
+    as_list = rng.random() < 0.5
+    kind = rng.choice(["list", "molv"]) if as_list else rng.choice(["map", "molv"])
+    k = rng.choice([1, 2, 3])
+    if rng.random() < 0.5:
+        # flat: a container of strings; rule A casts all of them, rule B selects those equal to one of the strings
+        items = [rng.choice(castable + ["abc", "1.5"]) for _ in range(k + 1)]
+        doc = list(items) if as_list else {f"k{i}": v for i, v in enumerate(items)}
+        target = rng.choice(items)
+        sel = rng.choice([("v", target), ("c", ("leaf", "Value", "is_instance", [str], {})),
+                          ("c", ("leaf", "ValueDataType", "equal_to", [str], {})), ("c", ("leaf", "Value", "in_", [[target, "zz"]], {}))])
+        parts_a = [(kind, dict(BARE))]
+        parts_b = [(kind, dict(BARE, value=sel))]
+    else:
+        # nested: records with a 'kind' and an 'x'; rule A casts every 'kind', rule B selects the records by 'kind'
+        recs = [{"kind": rng.choice(castable), "x": rng.choice(castable + ["abc"])} for _ in range(k)]
+        doc = list(recs) if as_list else {f"k{i}": v for i, v in enumerate(recs)}
+        target = rng.choice(recs)["kind"]
+        sel = ("c", ("leaf", "Value", "items_contain", [], {"kind": target}))
+        parts_a = [(kind, dict(BARE)), ("prim", "kind")]
+        parts_b = [(kind, dict(BARE, value=sel)), ("prim", "x")]
+    mk_cond = lambda: rc.gen_value_tree(g, depth=rng.choice([0, 1]), hostile_p=0.0)  # noqa: E731
+    cast = lambda: rng.choice([["int"], ["bool"]])  # noqa: E731
+    rules = [{"parts": parts_a, "cond": mk_cond(), "cast": cast()}, {"parts": parts_b, "cond": mk_cond(), "cast": cast()}]
+    if rng.random() < 0.3:
+        rules.append({"parts": parts_b, "cond": mk_cond(), "cast": []})
+    c = make_case(rules, doc, None, check_perm=False)
+    c.features.add(("dependent-cast-rules", kind, len(parts_a)))
+    return c
+
+
 def generate(rng, n, tier, cast_p=0.0, hostile=False):
     g = Gen(rng, pct_strings=True, max_depth=3)
     cases = []
@@ -211,6 +248,9 @@ def generate(rng, n, tier, cast_p=0.0, hostile=False):
     # the empty schema and single rules first
     cases.append(make_case([], {"a": 1}))
     while len(cases) < n:
+        if cast_p > 0 and rng.random() < 0.06:
+            cases.append(dependent_cast_case(rng, g))
+            continue
         k = rng.choice([0, 1, 2, 2, 3, 3, 4, 5] if tier == "quick" else [0, 1, 2, 3, 4, 5, 6, 8])
         if rng.random() < 0.02:
             k = rng.choice([10, 11, 12])      # two-digit rule numbers in the report
